@@ -118,7 +118,7 @@ def replay_queue(stream, hist):
                 if got != r:
                     return 'queue-iterpoll-one-step', 'step %d: gave %r expected %r' % (i, m, r)
             elif op == 'pending':
-                if q._queue.qsize() != n:
+                if hasattr(q, '_queue') and hasattr(q._queue, 'qsize') and q._queue.qsize() != n:
                     return 'queue-size', 'step %d: qsize=%d expected %d' % (i, q._queue.qsize(), n)
             elif op == 'iter':
                 got = [list(m.bytes()) for m in q.iterpoll()]
@@ -190,16 +190,19 @@ def check_queue_writers(rseed):
             sc.spawn(t, (lambda c=chunks[t]: setup.pq.put_bytes(c)))
         started = set()
         guard = 0
-        while not sc.all_done() and guard < 2000:
-            guard += 1
-            for t in list(sc.ts):
-                if t not in started:
-                    started.add(t)
-                    sc.step(t)
-            run = sc.runnable()
-            if not run:
-                break
-            sc.step(rng.choice(run))
+        try:
+            while not sc.all_done() and guard < 2000:
+                guard += 1
+                for t in list(sc.ts):
+                    if t not in started:
+                        started.add(t)
+                        sc.step(t)
+                run = sc.runnable()
+                if not run:
+                    break
+                sc.step(rng.choice(run))
+        except S.SchedulerError as e:
+            return 'queue-writers-hang', 'a writer entered a blocking call and never came back (%s)' % e
         if not sc.all_done():
             return 'queue-writers-hang', 'writers did not finish'
         for st in sc.ts.values():
@@ -216,7 +219,13 @@ def check_queue_writers(rseed):
         got = []
         while True:
             try:
-                got.append(list(setup.pq._queue.q.get_nowait().bytes()))
+                if isinstance(getattr(setup.pq, '_queue', None), S.AnnQueue):
+                    got.append(list(setup.pq._queue.q.get_nowait().bytes()))
+                else:
+                    m_ = setup.pq.poll()
+                    if m_ is None:
+                        break
+                    got.append(list(m_.bytes()))
             except _queue.Empty:
                 break
     stream = [b for t in order for b in chunks[t]]
